@@ -303,7 +303,11 @@ func (p *pep440Extension) parsePre(originalInput string) (string, error) {
 	if !found {
 		return originalInput, nil
 	}
-	p.ext.preNum, input = p.number(input)
+	var err error
+	p.ext.preNum, input, err = p.number(input)
+	if err != nil {
+		return originalInput, err
+	}
 	// Put the info in the top-level version, mostly for opVersionTo Span.
 	p.version.pre = make([]string, 2)
 	p.version.pre[0] = p.ext.pre
@@ -335,8 +339,9 @@ func (p *pep440Extension) parsePost(originalInput string) (string, error) {
 	}
 	p.makeExt()
 	p.ext.postPresent = true
-	p.ext.postNum, input = p.number(input[length:])
-	return input, nil
+	var err error
+	p.ext.postNum, input, err = p.number(input[length:])
+	return input, err
 }
 
 // parseDev parses a dev marker, if present, and adds it to the extension,
@@ -352,8 +357,9 @@ func (p *pep440Extension) parseDev(originalInput string) (string, error) {
 	}
 	p.makeExt()
 	p.ext.devPresent = true
-	p.ext.devNum, input = p.number(input[len(dev):])
-	return input, nil
+	var err error
+	p.ext.devNum, input, err = p.number(input[len(dev):])
+	return input, err
 }
 
 // hasASCIIPrefix reports whether str beings with the pattern,
@@ -410,11 +416,11 @@ func allowSeparator(input string) string {
 	return input
 }
 
-func (p *pep440Extension) number(input string) (int, string) {
+func (p *pep440Extension) number(input string) (int, string, error) {
 	input = allowSeparator(input)
 	cat, wid := versionNext(input, 0)
 	if cat != versionNumeric {
-		return 0, input
+		return 0, input, nil
 	}
 	var i int
 	for i = wid; i < len(input); i += wid {
@@ -423,8 +429,13 @@ func (p *pep440Extension) number(input string) (int, string) {
 			break
 		}
 	}
-	num, _ := strconv.ParseUint(input[:i], 10, 64)
-	return int(num), input[i:]
+	// The number is kept in an int: reject what does not fit rather than
+	// letting it wrap around.
+	num, err := strconv.ParseUint(input[:i], 10, 63)
+	if err != nil {
+		return 0, input, fmt.Errorf("number out of range: %s", input[:i])
+	}
+	return int(num), input[i:], nil
 }
 
 // makeExt allocates a PEP400 struct if the existing one is nil.
